@@ -14,6 +14,7 @@ package sqlidx
 
 import (
 	"fmt"
+	"os"
 	"sort"
 	"strings"
 	"testing"
@@ -27,6 +28,10 @@ import (
 const c25Rule = "SQL programs of 10-28 statements drawn by rapid over one table (keyed with 1-2 PK columns, or keyless) with 1-4 initial indexes from {non-unique, unique, multi-column, prefix on TEXT/VARCHAR, collated VARCHAR (0900_bin / 0900_ai_ci / general_ci)}: INSERT (plain/IGNORE/REPLACE/ON DUPLICATE KEY UPDATE), UPDATE (incl. of PK and of indexed columns, LIMIT), DELETE, CREATE/DROP/RENAME INDEX, ADD/DROP/MODIFY/RENAME COLUMN, DROP/ADD PRIMARY KEY, dolt_commit/add/checkout -b/checkout/merge (+ conflicts resolve ours/theirs/manual/abort)/cherry_pick/revert/reset hard|soft/stash push|pop; statements may fail. After every statement the working root (after version-control statements also STAGED), and at the end every commit of every branch and every branch's working set, are checked: for each secondary index the multiset of (index columns, PK) recomputed from the full-scan rows equals (a) the FORCE INDEX full-range scan (plan verified by EXPLAIN PLAN) and index point lookups, and (b) the stored index map decoded in process. Non-trivial: the program contains a successful UPDATE that changed rows and sets an indexed column, a successful schema change of the indexed table, and a successful merge/cherry-pick/revert that changed the table; distinct by the statement list."
 
 const c25Finding = "C25-keyless-prefix-outofband"
+
+// keyless table with a UNIQUE index and other indexes: INSERT … ON DUPLICATE KEY UPDATE that
+// hits the unique index leaves the entries of the rejected row in the other indexes
+const c25FindingODKU = "C25-keyless-odku-partial-index-writes"
 
 // index prefix lengths cut multi-byte characters (bytes, not characters): lookups through a
 // prefix part of a case/accent-insensitive column miss rows
@@ -67,6 +72,8 @@ type c25State struct {
 	excluded  int
 	// finding C25-prefix-bytes-multibyte is listed open: skip the affected point lookups
 	skipPrefixMB bool
+	// finding C25-keyless-odku-partial-index-writes is listed open: no ODKU on keyless tables with a unique index
+	noKeylessODKU bool
 
 	lastRows [][]string
 
@@ -79,6 +86,21 @@ type c25State struct {
 
 func (c *c25State) class(s string) { c.classes[s] = true }
 
+// query is Session.Query with an optional trace of every statement (VERIF_C25_TRACE=1).
+func (c *c25State) query(q string) (*vsql.Rows, error) {
+	r, err := c.s.Query(q)
+	if c25Trace {
+		if err != nil {
+			fmt.Printf("TRACE %s -- ERR %v\n", q, err)
+		} else {
+			fmt.Printf("TRACE %s -- %d rows\n", q, len(r.Data))
+		}
+	}
+	return r, err
+}
+
+var c25Trace = os.Getenv("VERIF_C25_TRACE") != ""
+
 func (c *c25State) name(prefix string) string {
 	c.nName++
 	return fmt.Sprintf("%s%d", prefix, c.nName)
@@ -86,7 +108,7 @@ func (c *c25State) name(prefix string) string {
 
 // exec runs a program statement; an error is recorded and tolerated.
 func (c *c25State) exec(q string) error {
-	err := c.s.Exec(q)
+	_, err := c.query(q)
 	c.full = append(c.full, q+";")
 	short := q
 	if len(short) > 160 {
@@ -118,7 +140,7 @@ func (c *c25State) refreshSchema(asOf string) *sxSchema {
 	if asOf != "" {
 		q += " AS OF '" + asOf + "'"
 	}
-	r, err := c.s.Query(q)
+	r, err := c.query(q)
 	if err != nil || len(r.Data) == 0 {
 		return nil
 	}
@@ -267,6 +289,15 @@ func (c *c25State) other(label string) (string, bool) {
 	return rapid.SampledFrom(o).Draw(c.rt, label), true
 }
 
+func (c *c25State) hasUnique() bool {
+	for _, ix := range c.sch.Indexes {
+		if ix.Unique {
+			return true
+		}
+	}
+	return false
+}
+
 func (c *c25State) currentBranch() {
 	if v, ok := c.s.Scalar(c.rt, "SELECT active_branch()"); ok {
 		c.cur = v
@@ -277,7 +308,7 @@ func (c *c25State) afterMergeLike(label string) {
 	rt := c.rt
 	// schema conflicts or data conflicts may be pending
 	n, _ := c.s.Scalar(rt, "SELECT COALESCE(SUM(num_conflicts),0) FROM dolt_conflicts")
-	sc, err := c.s.Query("SELECT COUNT(*) FROM dolt_schema_conflicts")
+	sc, err := c.query("SELECT COUNT(*) FROM dolt_schema_conflicts")
 	nsc := "0"
 	if err == nil && len(sc.Data) > 0 {
 		nsc = sc.Data[0][0]
@@ -351,6 +382,11 @@ func (c *c25State) step(i int, pool []string, kind string) bool {
 		}
 		verb := rapid.SampledFrom([]string{"INSERT", "INSERT", "INSERT IGNORE", "REPLACE", "ODKU"}).Draw(rt, lb+".verb")
 		tail := ""
+		if verb == "ODKU" && keyless && c.noKeylessODKU && c.hasUnique() {
+			verb = "INSERT"
+			c.excluded++
+			c.class("odku_excluded_known")
+		}
 		if verb == "ODKU" {
 			verb = "INSERT"
 			col := c.sch.Cols[rapid.IntRange(0, len(c.sch.Cols)-1).Draw(rt, lb+".odku")]
@@ -588,9 +624,15 @@ func (c *c25State) step(i int, pool []string, kind string) bool {
 		c.class("table_gone")
 		return false
 	}
-	c.validateSQL("", "WORKING")
+	// the stored maps first: a stale entry of a keyless index makes the SQL index scan crash
+	// the whole server process instead of returning a wrong result
+	c.lastRows = c.fullScan("")
 	c.validateInProc(sxRootSpec{Kind: "working", Branch: c.cur}, c.lastRows, c.sch)
+	c.validateSQL("", "WORKING")
 	if vc {
+		if sch := c.refreshSchema("STAGED"); sch != nil {
+			c.validateInProc(sxRootSpec{Kind: "staged", Branch: c.cur}, c.fullScan("STAGED"), sch)
+		}
 		c.validateSQL("STAGED", "STAGED")
 	}
 	return true
@@ -604,7 +646,7 @@ func (c *c25State) fullScan(asOf string) [][]string {
 	if asOf != "" {
 		q += " AS OF '" + asOf + "'"
 	}
-	r, err := c.s.Query(q)
+	r, err := c.query(q)
 	if err != nil {
 		c.rt.Fatalf("full scan failed: %s: %v\nprogram:\n%s", q, err, strings.Join(c.ops, "\n"))
 	}
@@ -682,7 +724,7 @@ func (c *c25State) validateSQL(asOf, what string) {
 		pkey := sch.Raw + "\x00" + ix.Name + "\x00" + asOf
 		usesIdx, ok := c.planCache[pkey]
 		if !ok {
-			pr, err := c.s.Query("EXPLAIN PLAN " + q)
+			pr, err := c.query("EXPLAIN PLAN " + q)
 			usesIdx = false
 			if err == nil {
 				var plan []string
@@ -702,7 +744,7 @@ func (c *c25State) validateSQL(asOf, what string) {
 			c.class("plan_not_through_index")
 		} else {
 			c.class("sql_index_scan")
-			r, err := c.s.Query(q)
+			r, err := c.query(q)
 			if err != nil {
 				c.fail("%s: index scan through %s failed: %s: %v", what, ix.Name, q, err)
 			}
@@ -763,7 +805,7 @@ func (c *c25State) lookups(sch *sxSchema, ix sxIndex, rows [][]string, asOfSQL, 
 			continue
 		}
 		q := fmt.Sprintf("SELECT * FROM t%s FORCE INDEX (`%s`) WHERE %s", asOfSQL, ix.Name, strings.Join(conds, " AND "))
-		r, err := c.s.Query(q)
+		r, err := c.query(q)
 		if err != nil {
 			c.fail("%s: lookup through %s failed: %s: %v", what, ix.Name, q, err)
 		}
@@ -928,7 +970,7 @@ func (c *c25State) finalSweep() {
 	rt := c.rt
 	br := c.s.MustQuery(rt, "SELECT name FROM dolt_branches ORDER BY name")
 	for _, b := range br.Data {
-		lg, err := c.s.Query("SELECT commit_hash FROM dolt_log('" + b[0] + "')")
+		lg, err := c.query("SELECT commit_hash FROM dolt_log('" + b[0] + "')")
 		if err != nil {
 			c.fail("dolt_log(%s): %v", b[0], err)
 		}
@@ -941,16 +983,16 @@ func (c *c25State) finalSweep() {
 			if sch == nil {
 				continue
 			}
-			c.validateSQL(h[0], "commit "+h[0])
 			c.validateInProc(sxRootSpec{Kind: "commit", Hash: h[0]}, c.fullScan(h[0]), sch)
+			c.validateSQL(h[0], "commit "+h[0])
 			c.class("commit_validated")
 		}
 		// the branch's working set, rows through the revision database
-		wr, err := c.s.Query(fmt.Sprintf("SELECT * FROM `%s/%s`.t", c.db, b[0]))
+		wr, err := c.query(fmt.Sprintf("SELECT * FROM `%s/%s`.t", c.db, b[0]))
 		if err != nil {
 			continue
 		}
-		sr, err := c.s.Query(fmt.Sprintf("SHOW CREATE TABLE `%s/%s`.t", c.db, b[0]))
+		sr, err := c.query(fmt.Sprintf("SHOW CREATE TABLE `%s/%s`.t", c.db, b[0]))
 		if err != nil || len(sr.Data) == 0 {
 			continue
 		}
@@ -969,7 +1011,7 @@ func (c *c25State) finalSweep() {
 
 // ---------------------------------------------------------------------------------------
 
-func c25Case(rt *rapid.T, srv *vsql.Server, admin *vsql.Session, rec *vh.Recorder, shortText, skipPrefixMB bool) {
+func c25Case(rt *rapid.T, srv *vsql.Server, admin *vsql.Session, rec *vh.Recorder, shortText, skipPrefixMB, noKeylessODKU bool) {
 	db := srv.NewDBName()
 	admin.MustExec(rt, "CREATE DATABASE "+db)
 	defer admin.Exec("DROP DATABASE " + db)
@@ -977,7 +1019,7 @@ func c25Case(rt *rapid.T, srv *vsql.Server, admin *vsql.Session, rec *vh.Recorde
 	s.MustExec(rt, "SET @@dolt_allow_commit_conflicts = 1")
 	s.MustExec(rt, "SET @@dolt_force_transaction_commit = 1")
 	c := &c25State{rt: rt, srv: srv, inproc: &sxInProc{srv: srv}, s: s, db: db, branches: []string{"main"}, cur: "main",
-		shortText: shortText, skipPrefixMB: skipPrefixMB, classes: map[string]bool{}, planCache: map[string]bool{}, validatedCommits: map[string]bool{}}
+		shortText: shortText, skipPrefixMB: skipPrefixMB, noKeylessODKU: noKeylessODKU, classes: map[string]bool{}, planCache: map[string]bool{}, validatedCommits: map[string]bool{}}
 	defer func() { c.s.Close() }()
 
 	// schema
@@ -1098,6 +1140,32 @@ func c25Pinned(t *testing.T, srv *vsql.Server, admin *vsql.Session) string {
 	return ""
 }
 
+// c25PinnedODKU is the reproduction of finding C25-keyless-odku-partial-index-writes.
+func c25PinnedODKU(t *testing.T, srv *vsql.Server, admin *vsql.Session) string {
+	db := srv.NewDBName()
+	admin.MustExec(t, "CREATE DATABASE "+db)
+	defer admin.Exec("DROP DATABASE " + db)
+	s := srv.Session(t, "pin", db)
+	defer s.Close()
+	s.MustExec(t, "CREATE TABLE t (a INT, b INT, c INT, UNIQUE KEY ub (b), KEY ia (a), KEY ic (c), KEY ica (c,a))")
+	s.MustExec(t, "INSERT INTO t VALUES (1,1,1)")
+	s.MustExec(t, "INSERT INTO t VALUES (3,1,3) ON DUPLICATE KEY UPDATE c = 9")
+	st, err := (&sxInProc{srv: srv}).readIndexes(db, sxRootSpec{Kind: "working", Branch: "main"}, "t")
+	if err != nil {
+		t.Fatalf("pinned: %v", err)
+	}
+	var bad []string
+	for _, n := range []string{"ia", "ic", "ica", "ub"} {
+		if len(st[n].Entries) != 1 {
+			bad = append(bad, fmt.Sprintf("%s=%s", n, sxShowRows(st[n].Entries)))
+		}
+	}
+	if len(bad) > 0 {
+		return "keyless table (a,b,c) with UNIQUE (b) and three more indexes, row (1,1,1), INSERT (3,1,3) ON DUPLICATE KEY UPDATE c = 9: table holds one row (1,1,9) but stored indexes hold " + strings.Join(bad, " ")
+	}
+	return ""
+}
+
 // c25PinnedPrefix is the reproduction of finding C25-prefix-bytes-multibyte.
 func c25PinnedPrefix(t *testing.T, srv *vsql.Server, admin *vsql.Session) string {
 	db := srv.NewDBName()
@@ -1124,6 +1192,7 @@ func TestVerif_C25(t *testing.T) {
 		"collation equality classes are modelled only for the generated alphabet (ASCII, á, É, CJK; no trailing spaces)",
 		"in-process reading decodes integer and string/byte key fields only (the generator creates no other indexed types)",
 		"while finding "+c25Finding+" is listed open, keyless tables get no out-of-band (long) TEXT/BLOB values; such cases are counted as excluded_known",
+		"while finding "+c25FindingODKU+" is listed open, keyless tables with a unique index get no INSERT … ON DUPLICATE KEY UPDATE (plain INSERT instead; counted as excluded_known)",
 		"while finding "+c25FindingPrefix+" is listed open, point lookups constraining a non-binary-collated column that is a prefix-length part of some index are skipped when the probe or the column holds multi-byte characters (counted as excluded_known); full-range index scans and the stored-map comparison stay active")
 	defer rec.Write(t)
 	srv, stop := sxStart(t, "c25")
@@ -1151,5 +1220,16 @@ func TestVerif_C25(t *testing.T) {
 			t.Errorf("%s", msg)
 		}
 	})
-	vh.Check(t, "programs", 110, 220, func(rt *rapid.T) { c25Case(rt, srv, admin, rec, open, openPfx) })
+	openODKU := vh.OpenFinding("C25", c25FindingODKU)
+	t.Run("pinned_keyless_odku_partial", func(t *testing.T) {
+		if msg := c25PinnedODKU(t, srv, admin); msg != "" {
+			if openODKU {
+				vh.ReportKnown("C25", c25FindingODKU, msg)
+				return
+			}
+			vh.NoteViolation(t.Name(), "", `{"sql":["CREATE TABLE t (a INT, b INT, c INT, UNIQUE KEY ub (b), KEY ia (a), KEY ic (c), KEY ica (c,a))","INSERT INTO t VALUES (1,1,1)","INSERT INTO t VALUES (3,1,3) ON DUPLICATE KEY UPDATE c = 9"],"observed":"`+strings.ReplaceAll(msg, `"`, `'`)+`"}`)
+			t.Errorf("%s", msg)
+		}
+	})
+	vh.Check(t, "programs", 110, 220, func(rt *rapid.T) { c25Case(rt, srv, admin, rec, open, openPfx, openODKU) })
 }
